@@ -28,6 +28,44 @@ fn strip_nulls(v: &mut Value) {
     }
 }
 
+/// Token types are concretised (ttmap) before the value goes through the API and serde, and mapped
+/// back in what TLC reads (TLC's integers are 32 bit): every "token_type" member and the first
+/// element of every pair under "transitions".
+fn map_token_types(v: &mut Value, f: &dyn Fn(u64) -> u64) {
+    match v {
+        Value::Object(m) => {
+            for (k, x) in m.iter_mut() {
+                if k == "token_type" {
+                    if let Some(n) = x.as_u64() {
+                        *x = json!(f(n));
+                    }
+                } else if k == "transitions" {
+                    if let Some(a) = x.as_array_mut() {
+                        for t in a.iter_mut() {
+                            if let Some(n) = t.get(0).and_then(|n| n.as_u64()) {
+                                t[0] = json!(f(n));
+                            }
+                        }
+                    }
+                } else {
+                    map_token_types(x, f);
+                }
+            }
+        }
+        Value::Array(a) => a.iter_mut().for_each(|x| map_token_types(x, f)),
+        _ => {}
+    }
+}
+fn conc_json(v: &Value) -> Value {
+    let mut c = v.clone();
+    map_token_types(&mut c, &|n| crate::ttmap::conc_mono(n as usize) as u64);
+    c
+}
+fn abs_json(mut v: Value) -> Value {
+    map_token_types(&mut v, &|n| crate::ttmap::abs(n as usize));
+    v
+}
+
 fn probe_inputs() -> Vec<String> {
     vec!["a\"\\\u{7}é€😀😀\t\n\"x'/* c */ab".to_string(), "".to_string(), "\\\\\"\"é€😀b\\é".to_string(), "/**/a\"b".to_string()]
 }
@@ -75,7 +113,7 @@ pub fn main(args: &[String]) -> i32 {
         let rec: Value = serde_json::from_str(&line).expect("tlc line");
         let kind = rec["kind"].as_str().unwrap();
         let id = rec["id"].clone();
-        let val = &rec["value"];
+        let val = &conc_json(&rec["value"]);
         let text = serde_json::to_string(val).unwrap();
         let r = std::panic::catch_unwind(|| -> Value {
             match kind {
@@ -90,7 +128,7 @@ pub fn main(args: &[String]) -> i32 {
                             (Err(a), Err(b)) => a == b,
                             _ => false,
                         };
-                        json!({"deserialized": true, "equals_api_value": de == api, "value": serde_json::from_str::<Value>(&ser).unwrap(),
+                        json!({"deserialized": true, "equals_api_value": de == api, "value": abs_json(serde_json::from_str::<Value>(&ser).unwrap()),
                             "roundtrip_equal": again.map(|a| a == de).unwrap_or(false), "same_behaviour": same})
                     }
                 },
@@ -99,7 +137,7 @@ pub fn main(args: &[String]) -> i32 {
                     Ok(de) => {
                         let api = Span::new(val["start"].as_u64().unwrap() as usize, val["end"].as_u64().unwrap() as usize);
                         let ser = serde_json::to_string(&de).unwrap();
-                        json!({"deserialized": true, "equals_api_value": de == api, "value": serde_json::from_str::<Value>(&ser).unwrap(),
+                        json!({"deserialized": true, "equals_api_value": de == api, "value": abs_json(serde_json::from_str::<Value>(&ser).unwrap()),
                             "roundtrip_equal": serde_json::from_str::<Span>(&ser).map(|a| a == de).unwrap_or(false)})
                     }
                 },
@@ -108,7 +146,7 @@ pub fn main(args: &[String]) -> i32 {
                     Ok(de) => {
                         let api = Position::new(val["line"].as_u64().unwrap() as usize, val["column"].as_u64().unwrap() as usize);
                         let ser = serde_json::to_string(&de).unwrap();
-                        json!({"deserialized": true, "equals_api_value": de == api, "value": serde_json::from_str::<Value>(&ser).unwrap(),
+                        json!({"deserialized": true, "equals_api_value": de == api, "value": abs_json(serde_json::from_str::<Value>(&ser).unwrap()),
                             "roundtrip_equal": serde_json::from_str::<Position>(&ser).map(|a| a == de).unwrap_or(false)})
                     }
                 },
@@ -119,7 +157,7 @@ pub fn main(args: &[String]) -> i32 {
                             Span::new(val["span"]["start"].as_u64().unwrap() as usize, val["span"]["end"].as_u64().unwrap() as usize));
                         let ser = serde_json::to_string(&de).unwrap();
                         json!({"deserialized": true, "equals_api_value": de == api && de.token_type() == api.token_type() && de.start() == api.start() && de.end() == api.end(),
-                            "value": serde_json::from_str::<Value>(&ser).unwrap(),
+                            "value": abs_json(serde_json::from_str::<Value>(&ser).unwrap()),
                             "roundtrip_equal": serde_json::from_str::<Match>(&ser).map(|a| a == de).unwrap_or(false)})
                     }
                 },
@@ -134,7 +172,7 @@ pub fn main(args: &[String]) -> i32 {
                             && de.end_position() == p("end_position");
                         let ser = serde_json::to_string(&de).unwrap();
                         json!({"deserialized": true, "equals_api_value": fields_ok,
-                            "value": serde_json::from_str::<Value>(&ser).unwrap(),
+                            "value": abs_json(serde_json::from_str::<Value>(&ser).unwrap()),
                             "roundtrip_equal": serde_json::from_str::<MatchExt>(&ser).map(|a| a == de).unwrap_or(false)})
                     }
                 },
